@@ -49,6 +49,13 @@ func (s *Stats) probe(k string) {
 	s.Probes[k]++
 }
 
+func (s *Stats) probeN(k string, n int64) {
+	if s.Probes == nil {
+		s.Probes = map[string]int64{}
+	}
+	s.Probes[k] += n
+}
+
 func (s *Stats) clause(k string) {
 	if s.Clauses == nil {
 		s.Clauses = map[string]int64{}
